@@ -40,14 +40,17 @@ structure Fx where
   reqAddl : Bool := false       -- C11-required-additional: required names outside properties are judged by additionalProperties
   intBounds : Bool := false     -- C11-integer-bounds: fractional bounds of an integer schema are rounded inwards
   tupOpen : Bool := false       -- C11-tuple-open: prefixItems without items leaves the tail unconstrained
+  strictProp : Bool := false    -- C11-strict-property-error (/repo 1871965): StrictMode returns the error of a property / additionalProperties conversion
   deriving DecidableEq, Repr
 
 /-- /repo 792c820. -/
 def Fx.legacy : Fx := {}
 /-- every pending patch applied. -/
-def Fx.all : Fx := ⟨true, true, true, true, true, true, true⟩
+def Fx.all : Fx := ⟨true, true, true, true, true, true, true, true⟩
 
-/-- the tree `./check C11` runs against. -/
+/-- the tree `./check C11` runs against: /repo HEAD (the seven round-4b patches landed as 8dd0167, 5c46085, cafc472,
+    5ed05fc, 611f7ab, 654995f, 18be159; `strictProp` as 1871965).  PINNED by hand, never probed: the driver runs this
+    value only, and the property-level theorems of Proofs/C11.lean are stated for it. -/
 def cur : Fx :=
   { nullUnion := true
     nullAnd := true
@@ -55,7 +58,8 @@ def cur : Fx :=
     openObj := true
     reqAddl := true
     intBounds := true
-    tupOpen := true }
+    tupOpen := true
+    strictProp := true }
 
 /-- what `convert` reads off one schema object; sub-schemas are kept as conversion RESULTS so
     that an error in a sibling the dispatch ignores is ignored as well. -/
@@ -177,15 +181,16 @@ def convArray (fx : Fx) (p : Parts) : R :=
     through its `Optional()` method. -/
 def makeOptional (s : S) : S := .opt s
 
-/-- properties whose conversion returns an error are skipped; a panic is not an error. -/
-def convProps (req : List Str) : List (Str × R) → Except E (List (Str × S))
+/-- properties whose conversion returns an error are skipped (`continue`); a panic is not an error.
+    `se` = "strict errors": C11-strict-property-error applied AND StrictMode — then the error is returned. -/
+def convProps (se : Bool) (req : List Str) : List (Str × R) → Except E (List (Str × S))
   | [] => .ok []
   | (k, .ok s) :: r =>
-      match convProps req r with
+      match convProps se req r with
       | .ok rest => .ok ((k, if req.contains k then s else makeOptional s) :: rest)
       | .error e => .error e
   | (_, .error .panic) :: _ => .error .panic
-  | (_, .error (.unsupported _)) :: r => convProps req r
+  | (_, .error (.unsupported kw)) :: r => if se then .error (.unsupported kw) else convProps se req r
 
 /-- required names without a (converted) property get an entry `v` (legacy: `Unknown()`). -/
 def addRequired (v : S) (req : List Str) (fields : List (Str × S)) : List (Str × S) :=
@@ -200,37 +205,39 @@ def addlValue (fx : Fx) (p : Parts) : S :=
 def openMode (fx : Fx) : Mode := if fx.openObj then .loose else .strip
 
 /-- the object path of `convertObject` once the properties are converted. -/
-def objOf (fx : Fx) (p : Parts) (fields : List (Str × S)) : R :=
+def objOf (fx : Fx) (se : Bool) (p : Parts) (fields : List (Str × S)) : R :=
   let shape := shapeOf (addRequired (addlValue fx p) p.required fields)
   match p.addl with
   | some (some false, _) => .ok (.obj .strict .none false [] shape)
   | some (none, .ok c) => .ok (.obj .loose (.some c) false [] shape)     -- Passthrough().WithCatchall(c)
   | some (none, .error .panic) => .error .panic
+  | some (none, .error (.unsupported kw)) =>                               -- `if err == nil { … }`: the catch-all is dropped
+      if se then .error (.unsupported kw) else .ok (.obj (openMode fx) .none false [] shape)
   | _ => .ok (.obj (openMode fx) .none false [] shape)
 
-def convObject (fx : Fx) (p : Parts) : R :=
+def convObject (fx : Fx) (se : Bool) (p : Parts) : R :=
   match p.properties with
   | some (kv :: kvs) =>
-      match convProps p.required (kv :: kvs) with
+      match convProps se p.required (kv :: kvs) with
       | .error e => .error e
-      | .ok fields => objOf fx p fields
+      | .ok fields => objOf fx se p fields
   | _ =>
       match p.addl with
       | some (_, r) =>
-          if fx.reqAddl && !p.required.isEmpty then objOf fx p []      -- a Record cannot require keys
+          if fx.reqAddl && !p.required.isEmpty then objOf fx se p []      -- a Record cannot require keys
           else (match r with
             | .error e => .error e
             | .ok v => .ok (.record (.str []) v []))      -- legacy: `required` is not read on this path
       | none => .ok (.obj (openMode fx) .none false [] (shapeOf (addRequired .any p.required [])))
 
-def convOneType (fx : Fx) (p : Parts) : TypeName → R
+def convOneType (fx : Fx) (se : Bool) (p : Parts) : TypeName → R
   | .string => .ok (convString fx p)
   | .number => .ok (convNumber p)
   | .integer => .ok (convInteger fx p)
   | .boolean => .ok .bool
   | .null => .ok .nil
   | .array => convArray fx p
-  | .object => convObject fx p
+  | .object => convObject fx se p
 
 /-- `admitsNil`: `schema.ParseAny(nil)` succeeds. -/
 def admitsNil (s : S) : Bool := accepts s .null
@@ -249,12 +256,12 @@ def andOf (fx : Fx) (a : S) (rest : List S) (chain : S) : S := nilIf (fx.nullAnd
 
 def typeOrder : List TypeName := [.string, .number, .integer, .boolean, .null, .array, .object]
 
-def convByType (fx : Fx) (p : Parts) : R :=
+def convByType (fx : Fx) (se : Bool) (p : Parts) : R :=
   match p.types with
   | [] => .ok .any
-  | [t] => convOneType fx p t
+  | [t] => convOneType fx se p t
   | ts =>
-      match seqR ((typeOrder.filter (fun t => ts.contains t)).map (convOneType fx p)) with
+      match seqR ((typeOrder.filter (fun t => ts.contains t)).map (convOneType fx se p)) with
       | .error e => .error e
       | .ok [] => .ok .any
       | .ok [s] => .ok s
@@ -310,7 +317,7 @@ def assemble (fx : Fx) (rejects : Str → Bool) (strict : Bool) (p : Parts) : R 
           match seqR ((v :: vs).map litOf) with
           | .error e => .error e
           | .ok ss => .ok (unionOf fx ss)
-  | _ => convByType fx p
+  | _ => convByType fx (fx.strictProp && strict) p
 
 /-- the value of a boolean schema. -/
 def boolOf : JS → Option Bool
